@@ -203,6 +203,7 @@ def random_doc(rng, size='small', text_profile='plain', flavours=CORE_FLAVOURS, 
         doc.tables.append(t)
     # references: every unordered endpoint pair at most once
     used = set()
+    m2m_pairs = set()
 
     def endpoint_pair(k):
         for _ in range(20):
@@ -238,6 +239,12 @@ def random_doc(rng, size='small', text_profile='plain', flavours=CORE_FLAVOURS, 
         if ep is None:
             continue
         r = am.Ref(rng.choice(REF_KINDS), *ep)
+        if r.kind == '<>':
+            # the join table is named <left>_<right>: at most one <> per ordered table pair
+            if (r.t1, r.t2) in m2m_pairs:
+                r.kind = rng.choice(['>', '<', '-'])
+            else:
+                m2m_pairs.add((r.t1, r.t2))
         r.name = maybe(0.4, lambda: nm('r', rng.choice(['bare', 'bare', 'space', 'unicode'])))
         r.on_update = maybe(0.3, lambda: rng.choice(ACTIONS))
         r.on_delete = maybe(0.3, lambda: rng.choice(ACTIONS))
@@ -476,19 +483,25 @@ def ref_product(rng, per_doc=6, full_actions=True):
                 t.columns.append(am.Column(nm('c'), am.ColType('plain', 'int')))
             doc.tables.append(t)
         used = set()
+        m2m = set()
         for kind, form, (ou, od), name, k in combos[at:at + per_doc]:
             for _try in range(50):
                 t1, t2 = rng.randrange(3), rng.randrange(3)
+                if kind == '<>' and (t1, t2) in m2m:
+                    continue
                 c1 = tuple(c.name for c in rng.sample(doc.tables[t1].columns, k))
                 c2 = tuple(c.name for c in rng.sample(doc.tables[t2].columns, k))
                 key = frozenset([(t1, c1), (t2, c2)])
                 if key in used or (t1 == t2 and set(c1) & set(c2)):
                     continue
                 used.add(key)
+                if kind == '<>':
+                    m2m.add((t1, t2))
                 break
             else:
                 continue
             r = am.Ref(kind, t1, list(c1), t2, list(c2), on_update=ou, on_delete=od, form=form)
+            r.api_inline = rng.random() < 0.4
             if name:
                 r.name = nm('r', name)
             doc.refs.append(r)
@@ -496,3 +509,149 @@ def ref_product(rng, per_doc=6, full_actions=True):
         rng.shuffle(doc.order)
         docs.append(doc)
     return docs
+
+
+def sql_column_product(rng, per_table=6):
+    """C03: flags x default (incl. every falsy value) x type shape, in tables cycling through
+    the pk layouts none / single / composite / pk index / composite + pk index, public and other schema"""
+    nm = Namer(rng, CORE_FLAVOURS)
+    tx = Texts(rng, 'plain')
+    defaults = [None, ('int', 0), ('int', 7), ('float', 0.0), ('float', 1.5), ('bool', False), ('bool', True),
+                ('str', ''), ('str', None), ('expr', None), ('null', None)]
+    combos = list(itertools.product([False, True], [False, True], [False, True], defaults,
+                                    ['plain', 'args', 'array', 'enum', 'enum_schema', 'quoted']))
+    layouts = ['none', 'single', 'composite', 'pkindex', 'composite+pkindex', 'pkindex2']
+    docs = []
+    for n, at in enumerate(range(0, len(combos), per_table)):
+        doc = am.Doc()
+        doc.enums.append(am.Enum('public', nm('e'), [am.EnumItem(nm('ei')), am.EnumItem(nm('ei'))]))
+        doc.enums.append(am.Enum(nm('s'), nm('e'), [am.EnumItem(nm('ei'))]))
+        t = am.Table('public' if n % 2 else nm('s'), nm('t'))
+        layout = layouts[n % len(layouts)]
+        t.note = tx.note('tn', 0.3) if n % 3 == 0 else None
+        for ci, (uq, nn, ai, d, tk) in enumerate(combos[at:at + per_table]):
+            ty = {'plain': am.ColType('plain', 'int'), 'args': am.ColType('args', 'decimal(10, 2)'),
+                  'array': am.ColType('array', 'text[]'), 'enum': am.ColType('enum', enum=0),
+                  'enum_schema': am.ColType('enum', enum=1)}.get(tk) or am.ColType('quoted', nm('qt', 'space'))
+            c = am.Column(nm('c'), ty, unique=uq, not_null=nn, autoinc=ai)
+            if d is not None:
+                kind, val = d
+                if kind == 'str' and val is None:
+                    val = tx.line('d')
+                if kind == 'expr':
+                    val = rng.choice(['now()', 'id * 2', "concat('a', 'b')"])
+                c.default = am.Default(kind, val)
+            if layout in ('single',) and ci == 0:
+                c.pk = True
+            if layout.startswith('composite') and ci < 2 + (n % 2):
+                c.pk = True
+            c.note = tx.note('cn', 0.3) if (ci + n) % 4 == 0 else None
+            t.columns.append(c)
+        if 'pkindex' in layout:
+            k = 1 if layout == 'pkindex2' else 2
+            t.indexes.append(am.Index([('col', c.name) for c in t.columns[-k:]], pk=True))
+        doc.tables.append(t)
+        doc.default_order()
+        docs.append(doc)
+    return docs
+
+
+# ---------------------------------------------------------------------------
+# C18: documents whose inline-reference graph has a chosen shape
+
+GRAPH_SHAPES = ['chain', 'chain_rev', 'star_in', 'star_out', 'tree', 'layered', 'diamond', 'disconnected', 'random_dag']
+
+
+def dag_edges(rng, shape, n):
+    """edges (holder, target): holder's CREATE TABLE contains the FK, target must come first.
+    Node numbers are declaration positions (tables are declared 0..n-1)."""
+    E = set()
+    if shape == 'chain':              # declared holder-first: 0 -> 1 -> 2 ...
+        E = {(i, i + 1) for i in range(n - 1)}
+    elif shape == 'chain_rev':        # declared target-first
+        E = {(i + 1, i) for i in range(n - 1)}
+    elif shape == 'star_in':          # everybody references node c
+        c = rng.randrange(n)
+        E = {(i, c) for i in range(n) if i != c}
+    elif shape == 'star_out':         # node c references everybody
+        c = rng.randrange(n)
+        E = {(c, i) for i in range(n) if i != c}
+    elif shape == 'tree':
+        perm = list(range(n))
+        rng.shuffle(perm)
+        for k in range(1, n):
+            E.add((perm[k], perm[rng.randrange(k)]))
+    elif shape == 'layered':
+        perm = list(range(n))
+        rng.shuffle(perm)
+        layers, at = [], 0
+        while at < n:
+            w = rng.randint(1, 3)
+            layers.append(perm[at:at + w])
+            at += w
+        for a, b in zip(layers, layers[1:]):
+            for x in b:
+                for y in a:
+                    if rng.random() < 0.6:
+                        E.add((x, y))
+    elif shape == 'diamond':
+        perm = list(range(n))
+        rng.shuffle(perm)
+        if n >= 4:
+            a, b, c, d = perm[:4]
+            E = {(a, b), (a, c), (b, d), (c, d)}
+            for x in perm[4:]:
+                E.add((x, rng.choice(perm[:4])))
+        else:
+            E = {(perm[i], perm[i + 1]) for i in range(n - 1)}
+    elif shape == 'disconnected':
+        perm = list(range(n))
+        rng.shuffle(perm)
+        h = n // 2
+        E = {(perm[i], perm[i + 1]) for i in range(h - 1)} | {(perm[i + 1], perm[i]) for i in range(h, n - 1)}
+    else:  # random_dag: edges only from later to earlier in a random topological order
+        perm = list(range(n))
+        rng.shuffle(perm)
+        for i in range(n):
+            for j in range(i):
+                if rng.random() < 0.3:
+                    E.add((perm[i], perm[j]))
+    return sorted(E)
+
+
+def graph_doc(rng, shape, n, same_bare_names=False, cyclic=False, kinds=('>', '<', '-')):
+    nm = Namer(rng, ('bare', 'bare', 'space', 'unicode'))
+    doc = am.Doc()
+    schemas = ['public', 'public', nm('s'), nm('s')]
+    shared = nm('t', 'bare')
+    for i in range(n):
+        sch = rng.choice(schemas)
+        name = nm('t')
+        if same_bare_names and i < len(set(schemas)):
+            sch = sorted(set(schemas))[i]
+            name = shared          # equal bare names in different schemas
+        t = am.Table(sch, name)
+        t.columns.append(am.Column(nm('id', 'bare'), am.ColType('plain', 'int'), pk=True))
+        doc.tables.append(t)
+    edges = dag_edges(rng, shape, n)
+    if cyclic and n >= 2:
+        edges = sorted(set(edges) | {(b, a) for a, b in edges[:1]} | {(0, n - 1), (n - 1, 0)})
+    for h, t in edges:
+        kind = rng.choice(kinds)
+        H, T = doc.tables[h], doc.tables[t]
+        hc = am.Column(nm('fk', 'bare'), am.ColType('plain', 'int'))
+        H.columns.append(hc)
+        if kind in ('>', '-'):
+            hc.inline_refs.append(am.InlineRef(kind, t, T.columns[0].name))
+        else:
+            # declared on the target side: `ref: < holder.col`
+            tc = am.Column(nm('rk', 'bare'), am.ColType('plain', 'int'))
+            T.columns.append(tc)
+            tc.inline_refs.append(am.InlineRef('<', h, hc.name))
+    # a few standalone (non-inline) references and a many-to-many: they must not influence the order clause
+    if n >= 2 and rng.random() < 0.5:
+        a, b = rng.sample(range(n), 2)
+        doc.refs.append(am.Ref(rng.choice(['>', '<', '-', '<>']), a, [doc.tables[a].columns[0].name],
+                               b, [doc.tables[b].columns[0].name]))
+    doc.default_order()
+    return doc, edges
